@@ -159,3 +159,54 @@ func (c *Ctx) mapDelete(args []*Val, st *State) {
 	}
 	c.mapSet(st, mt, args[0].S, c.mapKeyTerm(mt, args[1]), nil, false)
 }
+
+// ---------------------------------------------------------------- provenance of call results
+
+func (c *Ctx) provID(short string) int {
+	if c.provIDs == nil {
+		c.provIDs = map[string]int{}
+	}
+	if id, ok := c.provIDs[short]; ok {
+		return id
+	}
+	id := len(c.provIDs) + 1
+	c.provIDs[short] = id
+	return id
+}
+
+// tagProv marks the scalar leaves of a call result with the callee's provenance id
+func (c *Ctx) tagProv(v *Val, tag string) *Val {
+	switch v.K {
+	case VScalar:
+		if v.Prov == tag {
+			return v
+		}
+		n := *v
+		n.Prov = tag
+		return &n
+	case VTuple:
+		n := *v
+		n.F = make([]*Val, len(v.F))
+		for i, f := range v.F {
+			n.F[i] = c.tagProv(f, tag)
+		}
+		return &n
+	}
+	return v
+}
+
+// provMatches: the term "value's provenance is a call to a callee matching pattern"
+func (c *Ctx) provMatches(v *Val, pattern string) string {
+	if v == nil || v.Prov == "" {
+		return "false"
+	}
+	// ids are handed out lazily: make sure every known callee name is considered; names
+	// first seen later get larger ids and cannot be the provenance of an existing value
+	var alts []string
+	for short, id := range c.provIDs {
+		if matchAny([]string{pattern}, short) {
+			alts = append(alts, sEq(v.Prov, fmt.Sprint(id)))
+		}
+	}
+	return sOr(alts...)
+}
